@@ -3,6 +3,7 @@ package props
 import (
 	"fmt"
 	"go/token"
+	"go/types"
 	"sort"
 	"strings"
 
@@ -563,6 +564,23 @@ func runC06(c *Ctx) {
 				}
 				r.Add(core.Obligation{Rule: "channel", Key: "channel send in " + core.FuncName(fn), Func: core.FuncName(fn), Pos: c.P.Pos(core.PosOf(i)), Status: st, Basis: "non-blocking send in sendNotification", Detail: det})
 			}
+			// the other non-blocking form: select { case C <- n: default: }
+			if sel, ok := i.(*ssa.Select); ok {
+				for _, state := range sel.States {
+					if state.Dir != types.SendOnly || !strings.HasSuffix(norm(state.Chan), ".C") || !strings.Contains(state.Chan.Type().String(), "Notification") {
+						continue
+					}
+					nSend++
+					st := core.Proved
+					det := ""
+					if fn.Name() != "sendNotification" {
+						st, det = core.Violated, "a notification is sent outside sendNotification"
+					} else if sel.Blocking {
+						st, det = core.Violated, "the select that sends the notification has no default case and may block the packet loop"
+					}
+					r.Add(core.Obligation{Rule: "channel", Key: "channel send in " + core.FuncName(fn), Func: core.FuncName(fn), Pos: c.P.Pos(core.PosOf(i)), Status: st, Basis: "non-blocking send in sendNotification", Detail: det})
+				}
+			}
 			if call, ok := isBuiltinCall(i, "close"); ok && strings.Contains(call.Call.Args[0].Type().String(), "Notification") {
 				nClose++
 				st := core.Proved
@@ -628,6 +646,22 @@ func runC06(c *Ctx) {
 				st = core.Violated
 				why = append(why, "the send happens with the row lock held")
 			}
+			// the snapshot reflects the state this function establishes: every store to the host's Online flag in the
+			// function comes before the snapshot (a snapshot taken first reports the old state)
+			core.EachInstr(fn, func(i ssa.Instruction) {
+				so, isS := i.(*ssa.Store)
+				if !isS {
+					return
+				}
+				fa, isFA := so.Addr.(*ssa.FieldAddr)
+				if !isFA || fieldOwner(fa) != "packet.Host.Online" {
+					return
+				}
+				if !core.InstrDominates(i, snap) {
+					st = core.Violated
+					why = append(why, "Host.Online is stored at "+c.P.Pos(core.PosOf(i))+" after (or beside) the snapshot: the notification carries the previous online flag")
+				}
+			})
 		}
 		r.Add(core.Obligation{Rule: "snapshot", Key: "snapshot " + name, Func: core.FuncName(fn), Pos: c.P.Pos(fn.Pos()), Status: st,
 			Basis: "dirty=false and toNotification in one Row.Lock region, then sendNotification outside it", Detail: strings.Join(why, "; ")})
